@@ -29,8 +29,8 @@ let eval_h (line : string) : string =
       match m_new_from_fen (bytes_of_string (String.trim a)) with
       | Ok p -> (match m_to_fen (m_mirror p) with
                  | Ok t -> if string_of_bytes t = String.trim b then "mir=ok" else "mir=" ^ string_of_bytes t
-                 | _ -> "mir=panic")
-      | _ -> "mir=ok" in
+                 | _ -> "mir=panic") ^ (if m_material_ok p then " mat=1" else " mat=0")
+      | _ -> "mir=ok mat=0" in
     if ra = "panic" || rb = "panic" then "panic" else ra ^ " | " ^ rb ^ " | " ^ mir
   | _ -> failwith "EVAL: bad case"
 
